@@ -19,7 +19,7 @@ type JunkCfg struct {
 	StrayCR bool
 }
 
-var logWords = []string{"INFO", "WARN", "error:", "server", "started", "listening on :8080", "request", "id=42", "panic:", "runtime error: index out of range [5] with length 3",
+var logWords = []string{"\x1b[31mERROR\x1b[0m", "\x1b[1;32mok\x1b[m", "\x1b[0m", "\x1b[38;5;208mwarn", "INFO", "WARN", "error:", "server", "started", "listening on :8080", "request", "id=42", "panic:", "runtime error: index out of range [5] with length 3",
 	"[signal SIGSEGV: segmentation violation code=0x1 addr=0x0 pc=0x4a5b60]", "exit status 2", "FAIL", "ok", "--- FAIL: TestX (0.00s)", "Found 1 data race(s)", "goroutine", "created", "by"}
 
 var nearMisses = []string{
